@@ -2158,7 +2158,10 @@ def read_lines(path_or_source, *, include=False, include_dirs=None):
             if include_path is None:
                 raise AssemblerError('failed to include file: {}'.format(rel_path), line)
 
-            include_lines = read_lines(include_path, include=True, include_dirs=include_dirs)
+            try:
+                include_lines = read_lines(include_path, include=True, include_dirs=include_dirs)
+            except (OSError, UnicodeDecodeError) as e:
+                raise AssemblerError('failed to include file: {} ({})'.format(rel_path, e), line)
             lines.extend(include_lines)
         # handle existence and size of include_bytes in the reader
         elif re.match(r'\s*include_bytes\s', raw_line.lower() + ' '):
